@@ -27,6 +27,8 @@ pub fn install_panic_hook() {
                 let _ = std::fs::write(&path, serde_json::to_string(&v).unwrap());
             }
             eprintln!("ABORT in case {}: {} @ {}", idx, msg, loc);
+            // the verification-only integer types report the same violation by an ordinary (unwinding) panic: keep the message
+            LAST_PANIC.with(|p| *p.borrow_mut() = Some(format!("{} @ {}", msg, loc)));
             return;
         }
         LAST_PANIC.with(|p| *p.borrow_mut() = Some(format!("{} @ {}", msg, loc)));
